@@ -118,6 +118,12 @@ def types_corpus(depth=2):
               Union[Tuple[int], Tuple[int, int], Tuple[int, int, int], Tuple[int, int, int, int], Tuple[int, int, int, int, int], Tuple[int, int, int, int, int, int]],
               Union[FX.Left, FX.Right, FX.Both, FX.Base, FX.Outer.Inner, FX.MyList], Union[List[int], int], Union[Dict[Any, Any], Dict[int, int]]]
     out += unions
+    n0 = len(unions)
+    tups = [Tuple[()], Tuple[int], Tuple[int, int], Tuple[int, int, int], Tuple[int, int, int, int], Tuple[int, int, int, int, int], Tuple[int, int, int, int, int, int]]
+    unions += [Union[tuple(tups)], Union[tuple(tups[1:] + tups[:1])], Union[tuple(tups[1:4] + tups[:1] + tups[4:])],
+               Union[Dict[Any, Any], DefaultDict[str, int]], Union[DefaultDict[Any, Any], Dict[str, int]], Union[DefaultDict[Any, Any], DefaultDict[str, int]],
+               Union[List[Any], Set[int]], Union[Set[Any], Dict[str, int], List[Any]]]
+    out += unions[n0:]
     if depth >= 2:
         for u in unions[:8] + gen1[:10]:
             out += [List[u], Dict[str, u], Tuple[u, int], Optional[u] if u is not Any else u]
